@@ -150,14 +150,59 @@ func VerifC13DecodeForeignUpper12() { c13Decode(12, "ABANDON") }
 func VerifC13DecodeForeign12() { c13Decode(12, "zzzzzz") }
 
 // VerifC13Seed: the seed is PBKDF2-HMAC-SHA512(mnemonic, "mnemonic"+passphrase, 2048 rounds, 64 bytes).
-func VerifC13Seed() {
+func VerifC13Seed() { c13Seed(0, 3) }
+
+// long passphrases: BIP-39 puts no limit on the passphrase; the lengths around 56 (a 64-byte salt buffer), 64
+// and 128 (hash block sizes) are where a fixed buffer or a block-wise copy would show
+func VerifC13SeedLong()     { c13Seed(52, 68) }
+func VerifC13SeedLonger()   { c13Seed(118, 132) }
+func VerifC13SeedAllLen() { c13Seed(0, 160) }
+
+func c13Seed(lo, hi int) {
 	m := "abandon abandon abandon abandon abandon abandon abandon abandon abandon abandon abandon about"
-	p := string(rt.NondetBytes(rt.NondetLen(0, 3)))
+	p := string(rt.NondetBytes(rt.NondetLen(lo, hi)))
 	got := NewSeed(m, p)
 	want := pbkdf2.Key([]byte(m), []byte("mnemonic"+p), 2048, 64, sha512.New)
 	rt.Assert(bytes.Equal(got, want), "seed-is-the-bip39-pbkdf2")
 	s2, err := NewSeedWithErrorChecking(m, p)
 	rt.Assert(err == nil && bytes.Equal(s2, want), "checked-seed-is-the-same")
+	rt.Reach("end")
+}
+
+// VerifC13Whitespace: the three decoders split a mnemonic on any run of white space. A valid 12-word sentence is
+// written with one separator - at an arbitrary position - replaced by two arbitrary white-space bytes (space, tab,
+// line feed, carriage return), and optionally a leading and a trailing arbitrary white-space byte: every decoder accepts it and returns the entropy of the single-spaced sentence.
+func VerifC13Whitespace() {
+	words := []string{"legal", "winner", "thank", "year", "wave", "sausage", "worth", "useful", "legal", "winner", "thank", "yellow"}
+	want := bytes.Repeat([]byte{0x7f}, 16)
+	kinds := [4]byte{' ', '\t', '\n', '\r'}
+	ws := func() byte { return kinds[rt.NondetU8()&3] } // a table look-up, not a disjunction: no fork per separator
+	dbl := rt.NondetRange(0, len(words)-2)
+	var m []byte
+	if rt.NondetBool() {
+		m = append(m, ws())
+	}
+	for i, w := range words {
+		m = append(m, w...)
+		if i < len(words)-1 {
+			if i == dbl {
+				m = append(m, ws(), ws())
+			} else {
+				m = append(m, ' ')
+			}
+		}
+	}
+	if rt.NondetBool() {
+		m = append(m, ws())
+	}
+	text := string(m)
+	rt.Assert(IsMnemonicValid(text), "re-spaced-sentence-is-valid")
+	ent, err := EntropyFromMnemonic(text)
+	rt.Assert(err == nil && bytes.Equal(ent, want), "re-spaced-sentence-decodes-to-the-entropy")
+	raw, err := MnemonicToByteArray(text, true)
+	rt.Assert(err == nil && bytes.Equal(raw, want), "byte-array-form-of-the-re-spaced-sentence")
+	_, err = NewSeedWithErrorChecking(text, "")
+	rt.Assert(err == nil, "seed-call-accepts-the-re-spaced-sentence")
 	rt.Reach("end")
 }
 
